@@ -350,20 +350,22 @@ def deep_compare(obj1: Any,
                             if not isinstance(value2, (float, Decimal)) \
                                     or not math.isnan(value2):
                                 return -1
+                        elif isinstance(value2, float) and math.isnan(value2):
+                            return 1  # NaN precedes any other number
                         elif math.isinf(value1):
                             if value1 != value2:
                                 return -1 if value1 < value2 else 1
                         elif isinstance(value2, Decimal):
                             if value1 != float(value2):
                                 return -1 if value1 < float(value2) else 1
-                        elif not isinstance(value2, (value1.__class__, int)):
+                        elif not isinstance(value2, (float, int)):
                             return -1
                         elif value1 != value2:
                             return -1 if value1 < value2 else 1
 
                     elif isinstance(value2, float):
                         if math.isnan(value2):
-                            return -1
+                            return 1  # NaN precedes any other number
                         elif math.isinf(value2):
                             if value1 != value2:
                                 return -1 if value1 < value2 else 1
